@@ -395,3 +395,122 @@ theorem solveT_eq_finish (hacc : Accepted o n t)
 
 end Accepted
 end Fsic
+
+/-! ### Invariants of the user state, and the tracer as a simulation -/
+namespace Fsic
+section Invariant
+variable {σ V : Type} (I : Interp σ V) (o : Opts) (t : Int) (P : σ → Prop)
+
+/-- `P` is preserved by everything the solver can do to the user state. -/
+structure Preserved : Prop where
+  copyOffset : ∀ u off, P u → P (I.copyOffset u t off)
+  before : ∀ u, P u → P (I.before o u t).1
+  eval : ∀ u k, P u → P (I.eval o u t k).1
+  after : ∀ u k, P u → P (I.after o u t k).1
+
+def LoopOut.user {σ} : LoopOut σ → σ
+  | .done u _ _ => u
+  | .evalRaised u _ => u
+  | .nonFinite u _ => u
+  | .afterRaised u _ => u
+  | .badErrors u _ => u
+
+theorem loop_inv (h : Preserved I o t P) :
+    ∀ (fuel k : Nat) (u : σ) (prev : V), P u → P (loop I o t fuel k u prev).user := by
+  intro fuel
+  induction fuel with
+  | zero => intro k u prev hu; simpa [loop, LoopOut.user] using hu
+  | succ fuel ih =>
+    intro k u prev hu
+    have he := h.eval u k hu
+    unfold loop
+    rcases hev : I.eval o u t k with ⟨u', b⟩
+    rw [hev] at he
+    cases b with
+    | true => simpa [LoopOut.user] using he
+    | false =>
+      simp only
+      have ha := h.after u' k he
+      rcases hav : I.after o u' t k with ⟨u'', b'⟩
+      rw [hav] at ha
+      by_cases c1 : I.allFinite prev = false
+      · simp only [c1, Bool.true_eq_false, Bool.false_eq_true, ↓reduceIte]; exact ih _ _ _ he
+      · simp only [c1, Bool.true_eq_false, Bool.false_eq_true, ↓reduceIte]
+        by_cases c2 : I.allFinite (I.check u' t) = false
+        · simp only [c2, Bool.true_eq_false, Bool.false_eq_true, ↓reduceIte]
+          by_cases c3 : (k : Int) = o.maxIter
+          · cases o.errors <;> simp only [c3, ↓reduceIte, LoopOut.user] <;> exact he
+          · cases o.errors <;> simp only [c3, ↓reduceIte, LoopOut.user] <;>
+              first | exact he | exact ih _ _ _ he
+        · simp only [c2, Bool.true_eq_false, Bool.false_eq_true, ↓reduceIte]
+          by_cases c4 : (k : Int) < o.minIter
+          · simp only [c4, ↓reduceIte]; exact ih _ _ _ he
+          · simp only [c4, ↓reduceIte]
+            by_cases c5 : I.close (I.check u' t) prev = true
+            · simp only [c5, ↓reduceIte]
+              cases b' <;> simpa [LoopOut.user] using ha
+            · simp only [c5, Bool.true_eq_false, Bool.false_eq_true, ↓reduceIte]; exact ih _ _ _ he
+
+theorem stamp_user {σ} (w : World σ) (n : Nat) (t : Int) (s : Status) (k : Int) :
+    (stamp w n t s k).user = w.user := by
+  unfold stamp; cases pyIndex n t <;> rfl
+
+theorem finish_user {σ} (o : Opts) (n : Nat) (t : Int) (w : World σ) (r : LoopOut σ) :
+    (finish o n t w r).1.user = r.user := by
+  cases r <;> simp only [finish, LoopOut.user, stamp_user, withUser]
+  · split <;> simp [stamp_user]
+
+/-- Whatever `solve_t` does, an invariant of all model operations still holds afterwards. -/
+theorem solveT_inv (h : Preserved I o t P) (n : Nat) (w : World σ) (hw : P w.user) :
+    P (solveT I o n t w).1.user := by
+  unfold solveT
+  split
+  · exact hw
+  · split
+    · exact hw
+    · split
+      · exact hw
+      · have hs : P (seed I o t w.user) := by
+          unfold seed; split
+          · exact h.copyOffset _ _ hw
+          · exact hw
+        unfold solveCore
+        split
+        · exact hs
+        · have hb := h.before _ hs
+          rcases hbv : I.before o (seed I o t w.user) t with ⟨u2, b⟩
+          rw [hbv] at hb
+          cases b with
+          | true => exact hb
+          | false =>
+            simp only
+            rw [finish_user]
+            exact loop_inv I o t P h _ _ _ _ hb
+
+end Invariant
+
+section Traced
+variable {σ V S : Type} (I : Interp σ V) (snap : σ → Int → S)
+
+theorem traced_sim (on : Bool) : Sim (traced I snap on) I Prod.fst where
+  check _ _ := rfl
+  allFinite := rfl
+  close := rfl
+  zeroNF := rfl
+  copyOffset _ _ _ := rfl
+  before o u t := by
+    show (Prod.fst ((traced I snap on).before o u t).1, ((traced I snap on).before o u t).2) = _
+    simp only [traced]
+    rcases h : I.before o u.1 t with ⟨u', b⟩
+    cases b <;> rfl
+  eval o u t k := by
+    simp only [traced]
+    rcases h : I.eval o u.1 t k with ⟨u', b⟩
+    cases b <;> rfl
+  after o u t k := by
+    simp only [traced]
+    rcases h : I.after o u.1 t k with ⟨u', b⟩
+    cases b <;> rfl
+
+end Traced
+end Fsic
